@@ -41,6 +41,11 @@ func genC12(seed uint64, tier string) *plan.Plan {
 	r := rand.New(rand.NewPCG(seed, 0xc12))
 	pl := &plan.Plan{Cfg: map[string]int64{}}
 	pl.Cfg["transport"] = int64(r.IntN(3))
+	if r.IntN(3) == 0 {
+		// exporters of several vendors: every client's template ends in elements of its own that the
+		// collector (configured to drop what it does not know) has never seen
+		pl.Cfg["unk"] = int64(1 + r.IntN(40))
+	}
 	nc := 1 + r.IntN(8)
 	pl.Cfg["clients"] = int64(nc)
 	horizon := int64(0)
@@ -49,6 +54,9 @@ func genC12(seed uint64, tier string) *plan.Plan {
 			S: []string{"close", "close", "abort", "stay", "mute", "badhello"}[r.IntN(6)]}
 		if r.IntN(3) == 0 {
 			op.D = 0 // burst
+		}
+		if pl.Cfg["unk"] > 0 && c > 0 && r.IntN(2) == 0 {
+			op.A = pl.Ops[0].A // connect at the same instant as the first client
 		}
 		pl.Ops = append(pl.Ops, op)
 		if end := op.A + op.B*op.D/1000 + 5; end > horizon {
@@ -107,11 +115,20 @@ func genC12(seed uint64, tier string) *plan.Plan {
 	return pl
 }
 
-func c12Template(c int) gTemplate {
-	return gTemplate{Dom: uint32(100 + c), ID: uint16(256 + c), Fields: []gField{
+func c12Template(c int) gTemplate { return c12TemplateUnk(c, 0) }
+
+// c12TemplateUnk: with unk > 0 the template ends in unk enterprise-specific elements no registry
+// knows (other ones for every client): a collector in "drop unknown" mode delivers the records
+// without them.
+func c12TemplateUnk(c, unk int) gTemplate {
+	t := gTemplate{Dom: uint32(100 + c), ID: uint16(256 + c), Fields: []gField{
 		{F: ipfixref.Field{ID: 10, Len: 4}, Known: true, Width: 4},
 		{F: ipfixref.Field{ID: 1, Len: 8}, Known: true, Width: 8},
 	}}
+	for k := 0; k < unk; k++ {
+		t.Fields = append(t.Fields, gField{F: ipfixref.Field{ID: uint16(20000 + 16*c + k), Ent: 12345, Len: 2}, Width: 2})
+	}
+	return t
 }
 
 func runC12(pl *plan.Plan, out *plan.Outcome) {
@@ -120,6 +137,10 @@ func runC12(pl *plan.Plan, out *plan.Outcome) {
 	addr := "10.0.0.1:4739"
 	z := getZoo()
 	cin := collector.CollectorInput{Address: addr, Protocol: "tcp", MaxBufferSize: 65535, TemplateTTL: 7200}
+	unk := int(cfgOr(pl, "unk", 0))
+	if unk > 0 {
+		cin.DecodingMode = collector.DecodingModeLenientDropUnknown
+	}
 	if tr == 1 {
 		cin.Protocol = "udp"
 	}
@@ -237,10 +258,10 @@ func runC12(pl *plan.Plan, out *plan.Outcome) {
 				return
 			}
 			if op.S == "reuse" && tr == 0 {
-				c12Reuse(env, op, nReal, addr, sent, tmplSent, finished)
+				c12Reuse(env, op, nReal, addr, sent, tmplSent, finished, unk)
 				return
 			}
-			tm := c12Template(op.T)
+			tm := c12TemplateUnk(op.T, unk)
 			var conn net.Conn
 			var err error
 			Block("dial", func() {
@@ -285,6 +306,7 @@ func runC12(pl *plan.Plan, out *plan.Outcome) {
 					binary.BigEndian.PutUint32(rb[0:4], uint32(op.T))
 					binary.BigEndian.PutUint64(rb[4:12], uint64(n+k))
 					body = append(body, rb[:]...)
+					body = append(body, make([]byte, 2*unk)...)
 				}
 				msg := tm.dataMsg(ipfixref.Header{Sequence: uint32(n)}, body)
 				if op.S == "abort" && m == int(op.B)-1 {
@@ -447,7 +469,7 @@ func runC12(pl *plan.Plan, out *plan.Outcome) {
 // c12Reuse: the first connection pipelines its share of the messages and is reset; the second one is
 // dialled from the same local address at once, announces its own template (another observation
 // domain, so deliveries are attributable) and sends the rest, then closes in an orderly way.
-func c12Reuse(env *Env, op plan.Op, nReal int, addr string, sent, tmplSent []int, finished []bool) {
+func c12Reuse(env *Env, op plan.Op, nReal int, addr string, sent, tmplSent []int, finished []bool, unk int) {
 	var c1 *simnet.Conn
 	var err error
 	Block("dial", func() { c1, err = env.Net.Dial("tcp", addr) })
@@ -456,7 +478,7 @@ func c12Reuse(env *Env, op plan.Op, nReal int, addr string, sent, tmplSent []int
 		return
 	}
 	send := func(conn net.Conn, idx, msgs int) bool {
-		tm := c12Template(idx)
+		tm := c12TemplateUnk(idx, unk)
 		var werr error
 		Block("write", func() { _, werr = conn.Write(tm.templateMsg(ipfixref.Header{})) })
 		if werr != nil {
@@ -471,6 +493,7 @@ func c12Reuse(env *Env, op plan.Op, nReal int, addr string, sent, tmplSent []int
 				binary.BigEndian.PutUint32(rb[0:4], uint32(idx))
 				binary.BigEndian.PutUint64(rb[4:12], uint64(n+k))
 				body = append(body, rb[:]...)
+				body = append(body, make([]byte, 2*unk)...)
 			}
 			Block("write", func() { _, werr = conn.Write(tm.dataMsg(ipfixref.Header{Sequence: uint32(n)}, body)) })
 			if werr != nil {
